@@ -34,7 +34,8 @@ RULE = ('failure sets enumerated: every subset of failing positions for streams 
         'class: one un-sharded source behind the _ThreadSafeIterator wrapper) x every non-empty failure set x num_threads 0/1/2 '
         '(num_threads=1: compared in order), first operator of every kind (assign / filter / sink first: the class of the '
         'repaired F-C12-passed-on); skippable routing errors passed on between operators (every subset of records whose '
-        'output routing fails x the kind of the next operator).  non-trivial = at least one element fails and at least one survives')
+        'output routing fails x the kind of the next operator); assign(batch_size=1..3) on aligned streams (last batch 1..b rows) x '
+        'failing reads x skipping on/off x a failing call with skipping off, and the same with one row too many (misaligned).  non-trivial = at least one element fails and at least one survives')
 
 N, P = G.N, G.P
 
@@ -193,6 +194,44 @@ def batched_cases(ctx):
                               col_recs(n), ignore=ignore, tag='batched:assign')
 
 
+def aligned_assign_cases(ctx):
+  """`assign(..., batch_size=b)` on ALIGNED streams (the domain of `C08_assign_batched_aligned_partial`): every incoming
+  column batch has exactly b rows, the last 1..b; b = 1..3; with failing reads of a source that does not skip by itself
+  (every subset of up to 2 positions, skipping on and off), with a failing call under skipping OFF (the first error
+  surfaces; under skipping ON a failing call is finding F5), with a second operator behind; plus the same streams with ONE
+  row too many in a middle batch (misaligned: finding F-C08-assign-rebatch)."""
+  nmax = 3 if ctx.quick else 5
+  i = 0
+  for b in (1, 2, 3):
+    for n in range(1, nmax + 1):
+      for last in range(1, b + 1):
+        sizes = [b] * (n - 1) + [last]
+        rows, items = 0, []
+        for sz in sizes:
+          items.append(G.wd(v=G.wl(list(range(rows, rows + sz))), w=G.wl(list(range(100 + rows, 100 + rows + sz)))))
+          rows += sz
+        for s in subsets(n):
+          if len(s) > 2:
+            continue
+          for ignore in (True, False):
+            i += 1
+            spec = {'op': 'assign', 'fn': {'f': 'v_add1'}, 'in': {'one': N('v')}, 'keys': {'one': N('o')}, 'batch': b}
+            after = [] if i % 3 else [{'op': 'assign', 'fn': {'f': 'v_sum2'}, 'in': {'many': [N('o'), N('w')]}, 'keys': {'one': N('p')}}]
+            yield c08.mk_case([spec] + after, copy.deepcopy(items), ignore=ignore, kind='seq' if s else 'list',
+                              fail=[(j, 'ValueError' if (i + j) % 4 else 'KeyError') for j in s], src_ignore=False,
+                              tag='aligned-assign')
+            if not s and not ignore and n >= 2:
+              # a failing call, skipping off
+              for k in range(rows):
+                if (i + k) % 2:
+                  fspec = dict(spec, fn={'f': 'v_fail_on', 's': [k], 'kind': 'ValueError'})
+                  yield c08.mk_case([fspec], copy.deepcopy(items), ignore=False, tag='aligned-assign:failing-call')
+            if not s and n >= 2 and i % 2:
+              bad = copy.deepcopy(items)
+              bad[0]['d']['v']['l'].append(999); bad[0]['d']['w']['l'].append(1999)
+              yield c08.mk_case([spec], bad, ignore=ignore, tag='misaligned-assign')
+
+
 def gen_cases(ctx):
   rng, quick = ctx.rng, ctx.quick
 
@@ -216,6 +255,7 @@ def gen_cases(ctx):
   yield from counted(batched_cases(ctx), 'batched')
   yield from counted(threaded_source_cases(ctx), 'tsource')
   yield from counted(passed_on_cases(ctx), 'passed-on')
+  yield from counted(aligned_assign_cases(ctx), 'aligned-assign')
 
   def rand(n):
     for _ in range(n):
@@ -250,21 +290,75 @@ def extra(ctx):
         why=f'iter_utils._IGNORE_ERROR_TYPES is {got}, the model (Iter.Err.ignorable) assumes {L.SKIPPABLE}')))
   need = ['op:apply', 'op:assign', 'op:filter', 'op:sink', 'source:apply', 'source:assign', 'batched:apply', 'batched:assign',
           'random', 'threads', 'source-noskip:assign', 'source-noskip:filter', 'source-noskip:sink', 'passed-on:assign',
-          'passed-on:filter', 'passed-on:sink'] + [f'tsource:{k}:t{t}' for k in ('seq', 'iter') for t in (0, 1, 2)]
+          'passed-on:filter', 'passed-on:sink', 'aligned-assign', 'aligned-assign:failing-call'] + [f'tsource:{k}:t{t}' for k in ('seq', 'iter') for t in (0, 1, 2)]
   missing = [c for c in need if c not in ctx.hist.get('class', {})]
   if missing:
     raise InfraError(f'generator missed promised classes: {missing}')
   c08.export_stats(ctx)
+  inside = c08.STATS.get('assign_batched_aligned_theorem', {}).get('aligned: side-conditions hold', 0)
+  if inside < 100:
+    raise InfraError(f'only {inside} generated cases were inside the domain of C08_assign_batched_aligned_partial')
+  if c08.STATS.get('any_source_theorem_pyref', {}).get('compared', 0) < 1000:
+    raise InfraError('the any-source reference (Ref.chainEventsS) was compared with the Python reference on fewer than 1000 cases')
 
 
 # ----------------------------------------------------------------------------- impl / model / oracle
 
-run_impl = c08.run_impl
-
-
 model_requests = c08.model_requests
 model_obs = c08.model_obs
-compare = c08.compare
+
+# predicates of the named library that return one truth value whatever they are given (`OpOK.pred` is not decidable)
+_PLAIN_PREDICATES = ('is_even', 'gt')
+
+
+def compare_any_source(impl, model):
+  """Instances of `C12_skip_any_partial` / `C08_refines_assign_aligned_partial`: whenever the decidable side conditions
+  hold (`refa_ok` = Ref.runOKAB: every operator un-batched with SelfAlone, or an `assign` with batch_size on ALIGNED call
+  results) and no predicate can return a tuple, the model of the code must equal the Lean reference for chains over ANY
+  source (`Ref.chainEventsS`: passed-on skippable errors are skipped by the next operator) — no CleanRun condition; and
+  that reference must agree with the independent Python reference wherever the latter is defined."""
+  if impl.get('threads') or impl.get('build') is not None or impl.get('agg') or impl.get('hang') or 'make_error' in impl \
+      or 'refa_ok' not in model:
+    return None
+  ok = bool(model['refa_ok'])
+  if model.get('refa_assign'):
+    c08._stat('assign_batched_aligned_theorem', 'aligned: side-conditions hold' if ok else 'outside (misaligned, fn_batch_size, skipped failing call)')
+  c08._stat('any_source_theorem', 'side-conditions hold' if ok else 'outside (batch sizes, SELF first of several keys)')
+  if not ok:
+    return None
+  case_filters = impl.get('filter_fns')
+  ref = impl.get('pyref') or {}
+  undefined = ref.get('err') is not None and ref['err'][0] == 'undefined'
+  if case_filters is None or any(f not in _PLAIN_PREDICATES for f in case_filters):
+    if undefined:
+      return None          # possibly a predicate that returned a tuple: outside OpOK.pred
+  for k, rk in (('out', 'refs_out'), ('err', 'refs_err'), ('cause', 'refs_cause')):
+    if model.get(k) != model[rk]:
+      return (f"the Lean reference Ref.chainEventsS differs from the Lean model of the code although the side conditions of "
+              f"C12_skip_any_partial / C08_refines_assign_aligned_partial hold: {k}: {jdump(model[rk])[:200]} / {jdump(model.get(k))[:200]}")
+  if undefined or 'crash' in ref or ref.get('out') is None or ref.get('lenient'):
+    return None
+  c08._stat('any_source_theorem_pyref', 'compared')
+  if (ref['err'] is None) != (model['refs_err'] is None):
+    return f"reference interpreters differ on err (any-source reference): py {ref['err']} / lean {model['refs_err']}"
+  if ref.get('exact') or ref['err'] is None:
+    if ref['out'] != model['refs_out']:
+      return f"reference interpreters differ (any-source reference): py {jdump(ref['out'])[:300]} / lean {jdump(model['refs_out'])[:300]}"
+  elif model['refs_out'] != ref['out'][:len(model['refs_out'])]:
+    return 'Lean any-source reference output before the error is not a prefix of the failure-free Python reference'
+  return None
+
+
+def compare(impl, model):
+  d = c08.compare(impl, model)
+  return d if d is not None else compare_any_source(impl, model)
+
+
+def run_impl(case):
+  obs = c08.run_impl(case)
+  if isinstance(obs, dict):
+    obs['filter_fns'] = [(sp.get('fn') or {}).get('f') for sp in case['specs'] if sp['op'] == 'filter']
+  return obs
 
 
 def n_failing(case):
